@@ -173,6 +173,18 @@ def _scale_classes(case):
             'scales-differ' if len(set(sc)) > 1 else 'scales-equal', 'ratio=2^%d' % int(round(np.log2(max(sc) / min(sc))))]
 
 
+@st.composite
+def repeat_cases(draw, tier, **kw):
+    """P = 3 with the base point of direction 2 bit-identical to that of direction 0 and a different one in between ([A, B, A]):
+    anything remembered from 'the last direction that was factorised / evaluated' shows here"""
+    case = draw(M.meta_cases(tier, Pmin=2, **kw))
+    if case['P'] == 3:
+        for p in case['pts']:
+            p[3] = p[1]
+        case['repeat'] = True
+    return case
+
+
 def _deg_classes(case):
     P = case['P']
     d = case['deg'][1:1 + P]
@@ -195,6 +207,14 @@ def buckets(tier):
     for op in ('qr', 'eigh_val', 'eigh_fun'):      # (qr_full inverts R_0: no rank deficient support, it raises LinAlgError)
         bl.append(Bucket('fwd:degenerate:' + op, (lambda op=op: degenerate_cases(tier, op)), prop_forward,
                          {'quick': 60, 'thorough': 600}, nontrivial=(lambda case: True), classes=_deg_classes))
+    for fam in ('solve', 'solvec', 'inv', 'lu', 'qr', 'eigh', 'chol', 'det', 'special', 'unp'):
+        bl.append(Bucket('fwd:repeat:' + fam, (lambda fam=fam: repeat_cases(tier, first=fam, families=M.CHEAP_TAIL, max_len=2)), prop_forward,
+                         {'quick': 30, 'thorough': 300}, nontrivial=(lambda case: bool(case.get('repeat'))),
+                         classes=(lambda case: _classes(case) + (['base points A,B,A'] if case.get('repeat') else []))))
+    for fam in ('solve', 'inv', 'lu'):
+        bl.append(Bucket('rev:repeat:' + fam, (lambda fam=fam: repeat_cases(tier, first=fam, families=M.CHEAP_TAIL, max_len=2, reverse_mode=True)),
+                         prop_reverse, {'quick': 20, 'thorough': 200}, nontrivial=(lambda case: bool(case.get('repeat'))),
+                         classes=(lambda case: _classes(case) + (['base points A,B,A'] if case.get('repeat') else []))))
     for fam in SCALE_FAMS:
         bl.append(Bucket('fwd:scales:' + fam, (lambda fam=fam: scaled_cases(tier, fam)), prop_forward,
                          {'quick': 30, 'thorough': 300}, nontrivial=(lambda case: len(set(case['scales'][1:1 + case['P']])) > 1),
